@@ -40,7 +40,7 @@ def cli_argv(vars1, vars2, out='out'):
     return argv
 
 
-def run_combine(mods, ref1, ref2, vars1, vars2, ctx, canary=False, cli=False):
+def run_combine(mods, ref1, ref2, vars1, vars2, ctx, canary=False, cli=False, prior=False):
     comb = mods['amr_kitchen.combine.combine']
     PlotfileCooker = mods['amr_kitchen.plotfile_cooker'].PlotfileCooker
     Taster = mods['amr_kitchen.taste.taste'].Taster
@@ -51,6 +51,8 @@ def run_combine(mods, ref1, ref2, vars1, vars2, ctx, canary=False, cli=False):
     what = 'combine(vars1=%r, vars2=%r)' % (vars1, vars2)
     if cli:
         what = ' '.join(repr(a) if ' ' in a else a for a in cli_argv(vars1, vars2))
+    if prior:
+        what = "combine(plt2, plt1, pltout='out_prior'); " + what
     exp = expected(ref1, ref2, vars1, vars2)
     with patch.Patched(mods, fs), common.quiet():
         try:
@@ -64,6 +66,13 @@ def run_combine(mods, ref1, ref2, vars1, vars2, ctx, canary=False, cli=False):
                 finally:
                     sys.argv = old_argv
             else:
+                if prior:
+                    # a history in one process: an earlier combine whose FIRST input is laid out differently (the two inputs
+                    # swapped); what it leaves behind in the process must not reach the judged combine
+                    try:
+                        comb.combine(PlotfileCooker('plt2'), PlotfileCooker('plt1'), pltout='out_prior')
+                    except Exception:
+                        pass
                 comb.combine(PlotfileCooker('plt1'), PlotfileCooker('plt2'), pltout='out', vars1=vars1, vars2=vars2)
         except SystemExit as e:
             if exp is None and e.code not in (None, 0):
@@ -157,6 +166,18 @@ def run_case(case):
                 sig = 'C06/cli/%s' % lc
                 if sig not in viol:
                     viol[sig] = {'signature': sig, 'what': obl.failed[0][0], 'vars': [vars1, vars2], 'cli': True}
+    # histories: a combine with the inputs swapped runs first in the same process
+    for vars1, vars2 in [(None, None)]:
+        def hpath(ctx, vars1=vars1, vars2=vars2):
+            return run_combine(mods, ref1, ref2, vars1, vars2, ctx, prior=True)[0]
+        results, exhaustive, stats = core.explore(hpath, max_paths=8)
+        res.add_explore(results, exhaustive, stats)
+        for ctx, obl in results:
+            res.add_obl(obl)
+            if obl.failed:
+                sig = 'C06/history/%s' % lc
+                if sig not in viol:
+                    viol[sig] = {'signature': sig, 'what': obl.failed[0][0], 'vars': [vars1, vars2], 'prior': True}
     # mismatching meshes: must be refused before anything is written
     if case.get('mismatch'):
         for name, ref_bad in mismatches(mesh, case, lo, dx0):
@@ -209,6 +230,8 @@ def run_case(case):
                    "combine(PlotfileCooker('plt1'), PlotfileCooker('plt2'), pltout='out', vars1=%r, vars2=%r)\n" % tuple(v['vars']))
             if v.get('cli'):
                 run = ("import sys\nfrom amr_kitchen.combine import cli\nsys.argv = %r\ncli.main()\n" % (cli_argv(v['vars'][0], v['vars'][1]),))
+            if v.get('prior'):
+                run = run.replace("combine(PlotfileCooker('plt1')", "try:\n    combine(PlotfileCooker('plt2'), PlotfileCooker('plt1'), pltout='out_prior')\nexcept Exception:\n    pass\ncombine(PlotfileCooker('plt1')", 1)
             exp = expected(ref1, ref2, *v['vars'])
             expd = {'kind': 'raise'} if exp is None else {'kind': 'tree', 'tree_exp': exp, 'compare': 'bits'}
         d, status, out = common.replay_portfolio(lambda: replay_lib.make_tool_replay('C06', sig, v['what'], {'plt1': (fs, '/work/plt1'), 'plt2': (fs, '/work/plt2')}, run, expd))
